@@ -118,7 +118,8 @@ class Ctx:
         return drift, bad
 
     # ---- TLC judges real records (drifted ones, or all of them in audit mode) with the Decl predicates
-    def judge(self, module, ndjson, prop=None, what="Decl predicate false on the real result"):
+    def judge(self, module, ndjson, prop=None, what="Decl predicate false on the real result", observe=None):
+        """observe: a label -- failures are recorded as observations outside the listed properties, never as verdicts"""
         n = sum(1 for _ in open(ndjson))
         if n == 0: return 0
         cfg = ("judge.cfg", "SPECIFICATION Spec\nCONSTANTS\n  OffsMod = 65536\n  JudgeFile = \"judge.ndjson\"\n  Prop = \"%s\"\nINVARIANT Report\nCHECK_DEADLOCK FALSE\n" % (prop or self.pid))
@@ -135,7 +136,10 @@ class Ctx:
             if ok == "FALSE":
                 nbad += 1
                 rec = json.loads(lines[int(idx) - 1])
-                if "wire" in rec:
+                if observe:
+                    o = self.extra.setdefault("observations_outside_properties", [])
+                    if len(o) < 20: o.append(dict(what=observe, fn=rec.get("fn"), text=repr(bytes(rec.get("args", {}).get("s", rec.get("wire", []))))[:200]))
+                elif "wire" in rec:
                     self.violation(dict(property=self.pid, what=what, cfg=rec.get("cfg", {}), input=rec["wire"], text=repr(bytes(rec["wire"])), cuts=rec.get("cuts"),
                                         sig="judge:" + str(rec.get("k")), detail="(%s,%s) %s" % (rec.get("err"), rec.get("offs"), json.dumps(rec.get("obs"))[:1500]), rec=rec))
                 else:
@@ -733,6 +737,8 @@ def plan_C14(ctx):
         if x["drift"]:
             ctx.notes.append("drift on %d records of %s, judged by TLC: %s" % (x["drift"], cfg, (x.get("drift_samples") or [""])[0][:300]))
             ctx.judge("Judge_URI", drift_out)
+            # beyond C14 (tel: URIs are only required to report the number as the user with an empty host): recorded, never a verdict
+            ctx.judge("Judge_URI", drift_out, prop="X-tel", observe="a tel: URI whose components do not tile the input (URIProps!TelLossless)")
         if cfg == "MC_URI_core.cfg": audit_sample(ctx, r["out"], 97 if ctx.quick else 23)
         shutil.rmtree(r["dir"], ignore_errors=True)
     ctx.nontrivial = ctx.records
